@@ -845,6 +845,7 @@ def run(idx: ProgramIndex, rep: Report, tier: str):
     layout_kept_outside(idx, rep)
     constructor_bypass(idx, rep)
     binary_layouts(idx, rep)
+    constructor_flag(idx, rep)
     from .common_alias import aliasing_obligations
     rep.rule("C11-6", "the caller's batch indices and computed event index tensors never share a subscript (advanced indices in one subscript are zipped element-wise)")
     rep.rule("C11-4", "no in-place aliasing hazard in MultitaskMultivariateNormal (storage/version domain)")
@@ -914,3 +915,53 @@ def binary_layouts(idx: ProgramIndex, rep: Report):
                 "the layouts of both operands are compared / aligned" if consults else
                 "%s combines the flattened mean and covariance of `%s` with its own (or the first operand's) as they are; for two MultitaskMultivariateNormals in different layouts (interleaved / task-major) holding the SAME joint Gaussian, p + q has a covariance 6.3 off 2 Sigma and kl_divergence(p, q) = 1.54 instead of 0" % (label, b), {})
     rep.floor("C11-8", "binary operations over two distributions", n, 2)
+
+
+# ---- C11-9 ---------------------------------------------------------------------------------------------------------
+def constructor_flag(idx: ProgramIndex, rep: Report):
+    """The layout flag stored by the constructor is what every accessor consults.  It must be the caller's `interleaved`; where the
+    constructor relaxes it with facts about the event shape (one task / one point: both layouts coincide), those facts must be read
+    from the mean it STORES (after broadcasting against the covariance), not from the mean as it was passed in."""
+    from ..symbolic import inline, walk_paths
+    rep.rule("C11-9", "the constructor records the caller's layout: _interleaved is the `interleaved` argument (un-negated), and any shape fact mixed into it is read from the broadcast mean the distribution stores, not from the argument before broadcasting")
+    T = idx.cls(MOD, "MultitaskMultivariateNormal")
+    init = T.methods.get("__init__")
+    if init is None or "interleaved" not in ([a.arg for a in init.node.args.args] + [a.arg for a in init.node.args.kwonlyargs]):
+        raise AnalysisError("C11-9: MultitaskMultivariateNormal.__init__(..., interleaved) not found (anchor)")
+    params = {a.arg for a in init.node.args.args + init.node.args.kwonlyargs} - {"self", "interleaved", "validate_args"}
+    probs, paths = set(), 0
+    for path, seq in walk_paths(init):
+        flag = final = None
+        for st, env in seq:
+            if isinstance(st, ast.Assign) and len(st.targets) == 1 and isinstance(st.targets[0], ast.Attribute) and isinstance(st.targets[0].value, ast.Name) and st.targets[0].value.id == "self":
+                if st.targets[0].attr == "_interleaved":
+                    flag = inline(st.value, env)
+                elif st.targets[0].attr == "_output_shape":
+                    v = inline(st.value, env)
+                    if isinstance(v, ast.Attribute) and v.attr == "shape":
+                        final = v.value
+        if flag is None:
+            continue
+        paths += 1
+        if isinstance(flag, ast.Name) and flag.id == "interleaved":
+            continue
+        names = [n for n in ast.walk(flag) if isinstance(n, ast.Name) and n.id == "interleaved"]
+        if not names:
+            probs.add("_interleaved = `%s` does not depend on the `interleaved` argument" % src(flag)[:60])
+            continue
+        if any(isinstance(n, ast.UnaryOp) and isinstance(n.op, ast.Not) and any(m in names for m in ast.walk(n)) for n in ast.walk(flag)):
+            probs.add("_interleaved stores the negated argument")
+            continue
+        fd = ast.dump(final) if final is not None else None
+        # every other reference to a constructor argument must be inside the stored (broadcast) mean
+        inside = set()
+        for n in ast.walk(flag):
+            if fd is not None and ast.dump(n) == fd:
+                inside |= {id(m) for m in ast.walk(n)}
+        stale = sorted({n.id for n in ast.walk(flag) if isinstance(n, ast.Name) and n.id in params and id(n) not in inside})
+        if stale:
+            probs.add("the flag is relaxed with shape facts of `%s` as passed in, not of the broadcast mean the distribution stores (a 1 x t or n x 1 mean is expanded against the covariance): a task-major distribution is silently read as interleaved" % ", ".join(stale))
+    if not paths:
+        raise AnalysisError("C11-9: no path of the constructor assigns self._interleaved (anchor)")
+    rep.add("C11-9", "%s:MultitaskMultivariateNormal.__init__[layout flag]" % MOD, init.where, not probs,
+            "%d path(s): the stored flag is the argument" % paths if not probs else "; ".join(sorted(probs)), {"paths": paths})
